@@ -217,6 +217,15 @@ func hostileDecInputs(r *rand.Rand, n int, thorough bool) ([][]byte, []string) {
 			add(hdr(t), "valid-deep-with-leaves")
 		}
 	}
+	// wide lists: building a list must not copy what it already holds for every element
+	for _, n := range []int{300, 3000, 20000} {
+		t := []byte{0x02, byte(n >> 8), byte(n)}
+		for i := 0; i < n; i++ {
+			t = append(t, 0xA5, 0x01, byte(i))
+		}
+		add(hdr(t), "valid-wide-list")
+		add(hdr(append(append([]byte{}, t[:3]...), t[3:3+3*(n/2)]...)), "wide-list-declaring-more-than-it-holds")
+	}
 	// recursive descent: one stack frame per nesting level (truncated, so nothing is built);
 	// a quarter of the depth that exhausts the stack has to be handled
 	add(hdr(bytes.Repeat([]byte{0x01, 0x01}, stackProbeDepth/4)), "stack-depth-survivable")
@@ -611,6 +620,8 @@ func concWorker(seed int64, rounds int) {
 			cm := completeMsgDesc(r, closed)
 			encs = append(encs, frame(cm.Sid, cm.S, cm.F, cm.W, cm.Sys, encodeVariant(closed, nil)))
 		}
+		sharedReq := ast.NewHSMSMessageSelectReq(uint16(round+1), []byte{1, 2, 3, byte(round)})
+		sharedLt := ast.NewHSMSMessageLinktestReq([]byte{9, 9, 9, byte(round)})
 		type job func(salt string) string
 		var jobs []job
 		for i := range items {
@@ -673,6 +684,26 @@ func concWorker(seed int64, rounds int) {
 					return implSML("S1F1 W H->E\n<L\n  <U1 v" + salt + " w" + salt + "[3]>\n  <A[2..5] a" + salt + ">\n  ...\n>\n.")
 				},
 				func(string) string { return implDec(enc) },
+				func(string) string {
+					// what Variables() hands out is the caller's: sorted, extended, overwritten
+					vs := it.Variables()
+					sort.Strings(vs)
+					vs = append(vs, "extra")
+					for k := range vs {
+						vs[k] = "mine"
+					}
+					return fmt.Sprint(len(vs)) + " " + hxList(it.Variables())
+				},
+				func(string) string {
+					// a request that is answered by several goroutines and read by others
+					out := "PANIC"
+					safely(func() {
+						rsp := ast.NewHSMSMessageSelectRsp(sharedReq, byte(i))
+						lt := ast.NewHSMSMessageLinktestRsp(sharedLt)
+						out = showCtrl(rsp) + " " + showCtrl(lt) + " " + showCtrl(sharedReq) + " " + showCtrl(sharedLt)
+					})
+					return out
+				},
 				func(string) string {
 					// a receive loop: the frame is decoded from a buffer that is refilled while
 					// another goroutine is still working with the decoded message
